@@ -3,6 +3,7 @@ package compiler
 import (
 	"encoding/json"
 	"fmt"
+	"unicode/utf8"
 
 	"github.com/risor-io/risor/op"
 )
@@ -55,6 +56,9 @@ type floatConstantDef struct {
 type stringConstantDef struct {
 	Type  string `json:"type"`
 	Value string `json:"value"`
+	// The bytes of a string that is not valid UTF-8 (written with octal
+	// escapes): a JSON string cannot carry them unchanged
+	Bytes []byte `json:"bytes,omitempty"`
 }
 
 type functionConstantDef struct {
@@ -195,6 +199,9 @@ func unmarshalConstant(constant json.RawMessage) (any, error) {
 		if err := json.Unmarshal(constant, &def); err != nil {
 			return nil, err
 		}
+		if def.Bytes != nil {
+			return string(def.Bytes), nil
+		}
 		return def.Value, nil
 	case "function":
 		var def functionConstantDef
@@ -247,6 +254,9 @@ func marshalConstant(c any) (json.RawMessage, error) {
 	case float64:
 		return json.Marshal(floatConstantDef{Type: "float", Value: c})
 	case string:
+		if !utf8.ValidString(c) {
+			return json.Marshal(stringConstantDef{Type: "string", Bytes: []byte(c)})
+		}
 		return json.Marshal(stringConstantDef{Type: "string", Value: c})
 	case *Function:
 		fn, err := definitionFromFunction(c)
